@@ -555,6 +555,7 @@ class Analyzer:
                                       (self.rel(file), line, name))
             pat = "".join(x.text for x in L.flat(rules[0].items))
             c.macros[name] = (pat, rules[3].items, guard)
+            self.bump_cfg(count_cfgs(rules[3].items))
             mod.add(Def(name, "macro_rules", "m", guard, file, line, vis=vis))
             return
         # macro invocation at item level
